@@ -66,8 +66,8 @@ func zzReqPool(min, max int64) *GenginePool {
 
 func zzAllWrappers(gp *GenginePool) []*gengineWrapper {
 	var all []*gengineWrapper
-	all = append(all, gp.freeGengines...)
-	all = append(all, gp.additionGengines...)
+	all = append(all, zzFree(gp)...)
+	all = append(all, zzAdd(gp)...)
 	return all
 }
 
@@ -84,7 +84,7 @@ func zzContains(ws []*gengineWrapper, w *gengineWrapper) int {
 // zzPartition: every instance is in exactly one place (its own list or held).
 func zzPartition(gp *GenginePool, all, held []*gengineWrapper) {
 	for _, w := range all {
-		inFree, inAdd, inHeld := zzContains(gp.freeGengines, w), zzContains(gp.additionGengines, w), zzContains(held, w)
+		inFree, inAdd, inHeld := zzContains(zzFree(gp), w), zzContains(zzAdd(gp), w), zzContains(held, w)
 		vnd.Assert(inFree+inAdd+inHeld == 1, "every instance is in exactly one place: never lost, never duplicated")
 		if w.addition {
 			vnd.Assert(inFree == 0, "an additional instance never sits in the free list")
@@ -92,7 +92,7 @@ func zzPartition(gp *GenginePool, all, held []*gengineWrapper) {
 			vnd.Assert(inAdd == 0, "an initial instance never sits in the addition list")
 		}
 	}
-	vnd.Assert(len(gp.freeGengines)+len(gp.additionGengines)+len(held) == len(all), "instances in lists plus in flight = pool size")
+	vnd.Assert(len(zzFree(gp))+len(zzAdd(gp))+len(held) == len(all), "instances in lists plus in flight = pool size")
 }
 
 func zzLocksFree(gp *GenginePool) {
@@ -167,12 +167,12 @@ func %s() {
 	gp := zzReqPool(%d, %d)
 	all, held := zzArbitrary(gp)
 	zzPartition(gp, all, held)
-	nfree, nadd := len(gp.freeGengines), len(gp.additionGengines)
+	nfree, nadd := len(zzFree(gp)), len(zzAdd(gp))
 	var first *gengineWrapper
 	if nfree > 0 {
-		first = gp.freeGengines[0]
+		first = zzFree(gp)[0]
 	} else if nadd > 0 {
-		first = gp.additionGengines[0]
+		first = zzAdd(gp)[0]
 	}
 	vnd.Reach("executed")
 	if nfree+nadd == 0 {
@@ -209,9 +209,9 @@ func %s() {
 	vnd.Quiesce()
 	zzPartition(gp, all, rest)
 	if gw.addition {
-		vnd.Assert(gp.additionGengines[len(gp.additionGengines)-1] == gw, "an additional instance goes back to the addition list")
+		vnd.Assert(zzAdd(gp)[len(zzAdd(gp))-1] == gw, "an additional instance goes back to the addition list")
 	} else {
-		vnd.Assert(gp.freeGengines[len(gp.freeGengines)-1] == gw, "an initial instance goes back to the free list")
+		vnd.Assert(zzFree(gp)[len(zzFree(gp))-1] == gw, "an initial instance goes back to the free list")
 	}
 	zzLocksFree(gp)
 }
